@@ -37,7 +37,70 @@ CONFIG = {
 }
 
 
+import collections
+import math
+
+
+def _hx(t):
+    return -int(t[1:], 16) if t.startswith("-") else int(t, 16)
+
+
+def _circle_match(impl, model):
+    """The writer may store a polygon as a CIRCLE record when circle detection is on (tolerance CTOL grid steps): the decoded
+    file then says `circle cx cy r` where the saved library has the vertices.  Returns (True, None) when every such pair is
+    within 1.25 x tolerance + 2.3 grid steps (vertices and edge midpoints against the circle), (False, 'circle') when one is
+    farther (circle detection accepted a non-circle), (False, None) for any other difference."""
+    impl = impl.strip()
+    model = model.strip()
+    ctol = 0
+    k = impl.rfind(" ;; CTOL ")
+    if k >= 0:
+        ctol = _hx(impl[k + 9:].strip())
+        impl = impl[:k]
+    if impl == model:
+        return True, None
+    if ctol <= 0:
+        return False, None
+    ci = collections.Counter(impl.split(" ;; "))
+    cs = collections.Counter(model.split(" ;; "))
+    only_i = list((ci - cs).elements())
+    only_s = list((cs - ci).elements())
+    if len(only_i) != len(only_s) or not only_i:
+        return False, None
+    T = 1.25 * ctol + 2.3
+    verdict = True
+    for ls in only_s:
+        ps = ls.split("|")
+        if len(ps) != 4 or not ps[0].startswith("POLY ") or not ps[1].startswith("circle "):
+            return False, None
+        cx, cy, r = [_hx(t) for t in ps[1].split()[1:4]]
+        cand = [li for li in only_i if li.split("|")[0] == ps[0] and li.split("|")[2:] == ps[2:]]
+        best = None
+        for li in cand:
+            w = li.split("|")[1].split()
+            if not w or w[0] == "circle":
+                continue
+            v = [_hx(t) for t in w[1:]]
+            pts = list(zip(v[0::2], v[1::2]))
+            dev = 0.0
+            for a in range(len(pts)):
+                x0, y0 = pts[a]
+                x1, y1 = pts[(a + 1) % len(pts)]
+                for (x, y) in ((x0, y0), ((x0 + x1) / 2.0, (y0 + y1) / 2.0)):
+                    dev = max(dev, abs(math.hypot(x - cx, y - cy) - r))
+            if best is None or dev < best[0]:
+                best = (dev, li)
+        if best is None:
+            return False, None
+        only_i.remove(best[1])
+        if best[0] > T:
+            verdict = False
+    return (True, None) if verdict else (False, "circle")
+
+
 def same(kind, impl, model):
+    if kind == "gdstk":
+        return _circle_match(impl, model)[0]
     return impl.strip() == model.strip()
 
 
@@ -46,4 +109,6 @@ def nontrivial(kind, payload, r):
 
 
 def classify(kind, payload, r, m):
+    if kind == "gdstk" and "I" in r and "S" in m and _circle_match(r["I"], m["S"])[1] == "circle":
+        return "is_circle:edges-unchecked"
     return "oas-spec-" + kind
